@@ -6,7 +6,7 @@ RULE = ("cases = random edit histories (length <= 12) over item assignment, inse
         "and out of range), append, del, pop(), pop(i), extend, +=, slice deletion, reverse and aliasing probes (edit a slice / keep a slice across an edit), with formulas of mixed "
         "widths 1-3 x 1-3 over <=4 units, applied to a real Provenance and to a Python list of the same expressions; "
         "after the construction and after EVERY edit: len, every row read back (literals and truth value), query under "
-        "3 assignments, stored widths; non-trivial = at least 2 edits and (2 different kinds of edit or a change of the stored widths); "
+        "3 assignments (as index arrays and as total / partial mappings to candidate values; 30% of the cases list the candidates in reverse so that the falsy candidate is not the default), stored widths; non-trivial = at least 2 edits and (2 different kinds of edit or a change of the stored widths); "
         "distinct = distinct JSON of the case")
 EXHAUSTIVE = {"quick": False, "thorough": False}
 SHARD = 100
@@ -65,7 +65,7 @@ def gen(rng, tier):
             else:
                 ops.append(["reverse"])
         xs = [[rng.randrange(k) for _ in range(n)] for _ in range(3)]
-        cases.append({"n": n, "k": k, "fs": fs, "ops": ops, "xs": xs})
+        cases.append({"n": n, "k": k, "fs": fs, "ops": ops, "xs": xs, "cand_rev": rng.random() < 0.3})
     return cases
 
 
@@ -87,7 +87,8 @@ def run_impl(c):
     import numpy as np
     from datascope.utility.provenance import Units, Provenance, Equality, Conjunction, Disjunction
     n, k = c["n"], c["k"]
-    units = Units(units=n, candidates=k)
+    cand = list(range(k))[::-1] if c.get("cand_rev") else list(range(k))      # candidate VALUES by position
+    units = Units(units=n, candidates=cand)
 
     def mk(f):
         return build_expr(units, f, "min")
@@ -106,14 +107,24 @@ def run_impl(c):
     def observe():
         view = [lits_of(p[i]) for i in range(len(p))]
         qs = [np.asarray(p.query(np.array(x, dtype=int))).tolist() for x in c["xs"]]
+        # the same assignments given as mappings unit -> candidate VALUE (total, and partial: omitted units take the
+        # first candidate) must select the same rows
+        for x, q in zip(c["xs"], qs):
+            if np.asarray(p.query({i: cand[x[i]] for i in range(n)})).tolist() != q:
+                state["ok"] = False
+            xpart = [x[i] if i % 2 else 0 for i in range(n)]
+            if np.asarray(p.query({i: cand[x[i]] for i in range(n) if i % 2})).tolist() != \
+                    np.asarray(p.query(np.array(xpart, dtype=int))).tolist():
+                state["ok"] = False
         # the same observations on the reference list
         if len(p) != len(ref):
             state["ok"] = False
         else:
             for x, q in zip(c["xs"], qs):
-                if q != [bool(e.eval(x)) for e in ref]:
+                xv = [cand[v] for v in x]          # Expression.eval reads candidate VALUES
+                if q != [bool(e.eval(xv)) for e in ref]:
                     state["ok"] = False
-                if [bool(p[i].eval(x)) for i in range(len(p))] != [bool(e.eval(x)) for e in ref]:
+                if [bool(p[i].eval(xv)) for i in range(len(p))] != [bool(e.eval(xv)) for e in ref]:
                     state["ok"] = False
         return {"len": len(p), "view": view, "queries": qs, "shape": [int(p.data.shape[1]), int(p.data.shape[2])]}
 
@@ -141,11 +152,11 @@ def run_impl(c):
         elif kd == "pop":
             a = p.pop(); b = ref.pop()
             if lits_of(a) != [list(map(tuple, cj)) for cj in lits_of(b)] and \
-                    any(bool(a.eval(x)) != bool(b.eval(x)) for x in c["xs"]):
+                    any(bool(a.eval([cand[v] for v in x])) != bool(b.eval([cand[v] for v in x])) for x in c["xs"]):
                 state["ok"] = False
         elif kd == "popat":
             a = p.pop(op[1]); b = ref.pop(op[1])
-            if any(bool(a.eval(x)) != bool(b.eval(x)) for x in c["xs"]):
+            if any(bool(a.eval([cand[v] for v in x])) != bool(b.eval([cand[v] for v in x])) for x in c["xs"]):
                 state["ok"] = False
         elif kd == "delslice":
             del p[slice(*op[1])]; del ref[slice(*op[1])]
